@@ -145,7 +145,7 @@ class ExchangeDouble:
         raise_error = plan.get("raise", False)
         apply_it = plan.get("apply", not raise_error)
         reports = []
-        if apply_it and prev and kind in ("PLACE", "REPLACE"):
+        if apply_it and prev and kind in ("PLACE", "REPLACE") and not plan.get("nodedup"):
             rec["applied"] = True
             rec["dedup"] = True
             reports = copy.deepcopy(prev[-1]["raw_reports"])
